@@ -45,6 +45,11 @@ fn points(order: usize, f32: bool) -> Vec<(Func, String, f64)> {
         }
         v.push((Func::ExpM1, "exp_m1@0".into(), z));
         v.push((Func::Ln1p, "ln_1p@0".into(), z));
+        // stationary / inflection points at an exactly representable argument: a derivative
+        // coefficient is exactly zero there while (on nested types) its own derivative parts are not
+        for (f, nm) in [(Func::Cos, "cos"), (Func::Cosh, "cosh"), (Func::Sin, "sin"), (Func::Sinh, "sinh"), (Func::Tan, "tan"), (Func::Tanh, "tanh"), (Func::Atan, "atan"), (Func::Asin, "asin"), (Func::Asinh, "asinh"), (Func::Atanh, "atanh")] {
+            v.push((f, format!("{}@{}0", nm, if z.is_sign_negative() { "-" } else { "+" }), z));
+        }
     }
     for s in [1.0, -1.0] {
         v.push((Func::ExpM1, "exp_m1@denormal".into(), s * tiny));
@@ -237,6 +242,12 @@ fn main() {
         go!(ndv_core::zoo::HDHD64, "HyperDual<HyperDual64>");
         go!(ndv_core::zoo::DD32, "Dual<Dual32>");
         go!(ndv_core::zoo::D2D32, "Dual2<Dual32>");
+        // vector types over dual elements (their container arithmetic asks `is_zero()` of elements)
+        go!(ndv_core::zoo::DVD2_64, "DualVec<Dual64,2>");
+        go!(ndv_core::zoo::D2VD2_64, "Dual2Vec<Dual64,2>");
+        go!(ndv_core::zoo::HDVD_64, "HyperDualVec<Dual64,2,2>");
+        go!(ndv_core::zoo::DVDD_64, "DualVec<Dual64,Dyn>");
+        go!(ndv_core::zoo::DDV2_64, "Dual<DualSVec64<2>>");
         macro_rules! gob {
             ($ty:ty, $name:expr) => {
                 t += 1;
@@ -262,7 +273,7 @@ fn main() {
     let required = vec![(format!("at least 150 distinct (function, point) pairs observed (seen {})", pts.len()), pts.len() >= 150)];
     ctx.finish(
         acc,
-        "class = (function@point, type, part style); non-trivial = derivative parts not all zero. The point set is enumerated completely per type (exhaustive over (function, point, type)); derivative parts are random draws. Points: powi(0, n) n = 0..8 at +-0 and denormals; powf(0, p) for integer p = 0..7 and p in {1.5,...,6.5} exceeding the order of the type; exp_m1 / ln_1p at +-0, denormals and +-{1e-300, 1e-40, eps/4, 1e-10} (f32: 1e-30, 1e-12, eps/4, 1e-5); sph_j0/1/2 at +-0, denormals, eps/2, eps -1/0/+1 ulp, 2 eps, 1e-4, 1e-2, 1 -2..+2 ulp (the series/closed-form switch), both signs; bessel_j0/1/2 at +-0, denormals, 1e-300, and 1e-5 / 0.5 / 5 with -2..+2 ulp, both signs; atan2 on both axes (both signs of the zero coordinate, denormal neighbours).",
+        "class = (function@point, type, part style); non-trivial = derivative parts not all zero. The point set is enumerated completely per type (exhaustive over (function, point, type)); derivative parts are random draws. Points: powi(0, n) n = 0..8 at +-0 and denormals; powf(0, p) for integer p = 0..7 and p in {1.5,...,6.5} exceeding the order of the type; cos, cosh (f' = 0) and sin, sinh, tan, tanh, atan, asin, asinh, atanh (f'' = 0) at +-0; exp_m1 / ln_1p at +-0, denormals and +-{1e-300, 1e-40, eps/4, 1e-10} (f32: 1e-30, 1e-12, eps/4, 1e-5); sph_j0/1/2 at +-0, denormals, eps/2, eps -1/0/+1 ulp, 2 eps, 1e-4, 1e-2, 1 -2..+2 ulp (the series/closed-form switch), both signs; bessel_j0/1/2 at +-0, denormals, 1e-300, and 1e-5 / 0.5 / 5 with -2..+2 ulp, both signs; atan2 on both axes (both signs of the zero coordinate, denormal neighbours).",
         &["truth from analytically known Taylor coefficients at the point (binomial for powers, Maclaurin series for the Bessel families, complex-log series for atan2); tolerance K*u*sum|terms| with an absolute floor at the denormal level", "orders above 6 (three or more nested levels of higher-order types) are outside the enumerated set"],
         extra,
         &required,
